@@ -336,6 +336,7 @@ class Node:
             new_data_id = None
         else:
             new_data_id = data_id
+            hash(new_data_id)  # raise TypeError before anything is modified
 
         node_map = tree._nodes_by_data_id
         cur_nodes = node_map[self._data_id]
